@@ -494,6 +494,7 @@ J gen_sessions(uint64_t seed, const J &ov)
 	// real clients
 	J cl = J::arr();
 	int nreal = (int)r.range(0, 2);
+	if (fsucc && r.chance(0.7)) nreal = 0;        // the model that will fall silent then owns slot 0, which the successor inherits
 	for (int i = 0; i < nreal; i++) { J c = J::obj(); gen_client_cfg(r, c, true, false, (int)dom.size(), 20); c.set("start_us", (long long)((0.1 + r.uniform() * 10) * 1e6)); cl.push(c); }
 	cfg.set("clients", cl);
 	// legitimate model clients
@@ -528,7 +529,8 @@ J gen_sessions(uint64_t seed, const J &ov)
 		if (r.chance(0.5)) m.set("fragsize", (int)r.range(20, 200));
 		m.set("lazy", r.chance(0.3));
 		if (!ffrag && r.chance(0.4)) m.set("auto_until_s", 5 + r.uniform() * (T - 70));   // goes silent -> expires after 60 s
-		if (fsucc && (i == 0 || r.chance(0.4))) { m.set("auto_until_s", 25 + r.uniform() * 40); m.set("start_us", (long long)((0.1 + r.uniform() * 5) * 1e6)); }
+		if (fsucc && (i == 0 || r.chance(0.4))) { m.set("auto_until_s", 25 + r.uniform() * 40); m.set("start_us", (long long)((i == 0 ? 0.05 : 0.5 + r.uniform() * 5) * 1e6)); }
+		else if (fsucc) m.set("start_us", (long long)((0.5 + r.uniform() * 20) * 1e6));
 		m.set("lat_up_us", (long long)r.pick_latency()); m.set("lat_dn_us", (long long)r.pick_latency());
 		if (r.chance(0.5)) { static const int ue[] = {6, 26, 7}; m.set("upenc", ue[r.range(0, 2)]); }
 		models.push(m);
